@@ -118,6 +118,7 @@ pub fn solve_real_lp_problem_micro_lp(lp: &LinearModel) -> Result<LpSolution<f64
 
     let obj = lp.objective();
     let mut vars_microlp = Vec::with_capacity(obj.len());
+    let mut negative_parts: Vec<Option<microlp::Variable>> = vec![None; obj.len()];
     for (i, name) in variables.iter().enumerate() {
         let domain = if let Some(domain) = domain.get(name) {
             domain
@@ -129,6 +130,22 @@ pub fn solve_real_lp_problem_micro_lp(lp: &LinearModel) -> Result<LpSolution<f64
         };
         let var = match domain.get_type() {
             VariableType::NonNegativeReal(min, max) => problem.add_var(obj[i], (*min, *max)),
+            // microlp 0.5 reports wrong verdicts (or does not terminate) when
+            // variables have no finite lower bound: such a variable is passed as
+            // the difference of two non-negative ones
+            VariableType::Real(min, max) if *min == f64::NEG_INFINITY => {
+                let positive = problem.add_var(obj[i], (0.0, f64::INFINITY));
+                let negative = problem.add_var(-obj[i], (0.0, f64::INFINITY));
+                if max.is_finite() {
+                    problem.add_constraint(
+                        [(positive, 1.0), (negative, -1.0)],
+                        microlp::ComparisonOp::Le,
+                        *max,
+                    );
+                }
+                negative_parts[i] = Some(negative);
+                positive
+            }
             VariableType::Real(min, max) => problem.add_var(obj[i], (*min, *max)),
             _ => {
                 return Err(SolverError::InvalidDomain {
@@ -144,12 +161,17 @@ pub fn solve_real_lp_problem_micro_lp(lp: &LinearModel) -> Result<LpSolution<f64
     }
 
     for cons in lp.constraints() {
-        let coeffs = cons
+        let mut coeffs = cons
             .coefficients()
             .iter()
             .zip(vars_microlp.iter())
             .map(|(c, v)| (*v, *c))
             .collect::<Vec<_>>();
+        for (negative, c) in negative_parts.iter().zip(cons.coefficients().iter()) {
+            if let Some(negative) = negative {
+                coeffs.push((*negative, -*c));
+            }
+        }
         let rhs = cons.rhs();
         let comparison = match cons.constraint_type() {
             Comparison::LessOrEqual => microlp::ComparisonOp::Le,
@@ -180,9 +202,13 @@ pub fn solve_real_lp_problem_micro_lp(lp: &LinearModel) -> Result<LpSolution<f64
             let assignment = variables
                 .iter()
                 .zip(vars_microlp.iter())
-                .map(|(name, c)| Assignment {
+                .zip(negative_parts.iter())
+                .map(|((name, c), negative)| Assignment {
                     name: name.clone(),
-                    value: optimal_solution[*c],
+                    value: match negative {
+                        Some(negative) => optimal_solution[*c] - optimal_solution[*negative],
+                        None => optimal_solution[*c],
+                    },
                 })
                 .collect::<Vec<_>>();
             let coeffs = assignment.iter().map(|v| v.value).collect();
